@@ -138,13 +138,13 @@ func init() {
 		ID:    "C26",
 		Level: "model_checking",
 		Rule: "threads: the real Sender.Run goroutine, a committer calling Send 3 (2) times, two replicas running the real GetWALStream handler on a fake gRPC stream; a replica 'connects' when its handler thread is scheduled and 'disconnects' when its stream's Send returns an error at a point chosen by the explorer (environment choice); " +
-			"ALL interleavings and disconnect points with <=2 deviations (thorough 3). oracle: no panic, no deadlock, every replica receives transaction groups in commit order, and a replica registered before commit i that never disconnects receives i, i+1, ... non-trivial = >=1 deviation",
-		Assume:   []string{"the gRPC transport is replaced by a fake stream (Go interface level); the unsynchronised StreamChannels map is a data race the cooperative scheduler cannot see, only its interleaving effects"},
+			"ALL interleavings and disconnect points with <=3 deviations (thorough 5). oracle: no panic, no deadlock, every replica receives transaction groups in commit order, and a replica registered before commit i that never disconnects receives i, i+1, ... non-trivial = >=1 deviation",
+		Assume:   []string{"the gRPC transport is replaced by a fake stream (Go interface level)", "the unsynchronised StreamChannels map is a data race (reported by the happens-before detector, counted in coverage.hb_races_seen); C26 judges its EFFECTS: accesses at the racy sites are scheduling points"},
 		QuickMax: 6 * time.Minute, ThorMax: 30 * time.Minute,
 	}, schedEnum(c26Scens, func(c *mc.Ctx, si int) int {
 		if c.Thorough() {
-			return 3
+			return 5
 		}
-		return 2
+		return 3
 	}), schedRun(c26Scens, "C26"))
 }
